@@ -9,7 +9,7 @@ CAUGHT / MISSED, removes the worktree.  Evidence written by this run is restored
 """
 import argparse, os, shutil, subprocess, sys, tempfile
 ap = argparse.ArgumentParser()
-ap.add_argument('prop'); ap.add_argument('patch'); ap.add_argument('--tier', default='quick'); ap.add_argument('--demo')
+ap.add_argument('prop'); ap.add_argument('patch'); ap.add_argument('--tier', default='quick'); ap.add_argument('--demo'); ap.add_argument('--suite', action='store_true', help='also run the repository test-suite on the changed tree and compare with BASELINE stable_pass'); ap.add_argument('--no-check', action='store_true')
 a = ap.parse_args()
 wt = tempfile.mkdtemp(prefix=f'seedrun-{a.prop}-', dir='/tmp')
 os.rmdir(wt)
@@ -27,6 +27,21 @@ try:
     if a.demo:
         d0 = sh(f'PYTHONPATH=/repo /venv/bin/python {a.demo}'); d1 = sh(f'PYTHONPATH={wt} /venv/bin/python {a.demo}')
         print(f'demo: clean exit={d0.returncode} changed exit={d1.returncode}')
+    if a.suite:
+        import json, xml.etree.ElementTree as ET
+        b = json.load(open('/root/.vp/BASELINE.json'))
+        out = wt + '.junit.xml'
+        e2 = dict(os.environ); e2.pop('ELEMENTPATH_VERIF', None); e2.pop('VERIF_REPO', None)
+        subprocess.run(f'cd {wt} && /venv/bin/python -m pytest -q -p no:cacheprovider --timeout=900 --continue-on-collection-errors --junitxml={out}', shell=True, capture_output=True, text=True, env=e2)
+        passed = set()
+        for tc in ET.parse(out).getroot().iter('testcase'):
+            if not any(ch.tag in ('failure', 'error', 'skipped') for ch in tc):
+                passed.add((tc.get('classname') or '') + '::' + (tc.get('name') or ''))
+        os.remove(out)
+        missing = sorted(set(b['stable_pass']) - passed)
+        print(f'suite on changed tree: passed={len(passed)} missing_from_baseline={len(missing)} {missing[:3]}')
+    if a.no_check:
+        sys.exit(0)
     env = dict(os.environ, VERIF_REPO=wt)
     r = subprocess.run(['./check', a.prop, '--tier', a.tier], cwd='/verif', env=env, capture_output=True, text=True)
     lines = [l for l in r.stdout.splitlines() if l.startswith(('VIOLATION', 'MACHINERY', '  class='))]
